@@ -284,6 +284,9 @@ def calc_rule(ctx, prefix):
                     uncond_inherit = True
         for n in sir.walk(arm.body):
             if n.get("k") == "binary" and n["op"] in ("||", "&&") and "in_calc" in sir.expr_str(n):
+                if n["op"] == "||":
+                    # `in_calc || <math test>` used as a value (bound to a local, `.then(..)`) instead of an `if` condition
+                    names |= cm.math_condition(sir.expr_str(n), ctx.sc)
                 uncond_inherit = n["op"] == "||" and not sir.expr_str(n).replace(" ", "").startswith("!")
                 if n["op"] == "&&" or "!in_calc" in sir.expr_str(n).replace(" ", ""):
                     uncond_inherit = False
@@ -436,6 +439,35 @@ def class_flag_rule(ctx, prefix):
     for role in ("qualified-prelude", "class-block"):
         d = roles[role]
         where = ctx.where(d.fn)
+        # the other spelling of the same discipline: one assignment after the dispatch, `in_class = <the token just handled is `.`>`
+        inside = set(id(x) for x in sir.walk(d.node))
+        after = [n for n in sir.walk(d.loop) if n.get("k") == "assign" and sir.expr_str(n["l"]) == "in_class" and id(n) not in inside]
+        uniform = None
+        if after and not any(n.get("k") == "assign" and sir.expr_str(n["l"]) == "in_class" for n in sir.walk(d.node)):
+            def is_dot_test(e, depth=0):
+                e = sir.strip_ref(e)
+                if e.get("k") == "path" and len(e["segs"]) == 1 and depth < 2:
+                    for st_ in sir.walk(d.loop):
+                        if st_.get("k") == "local" and st_["pat"].get("name") == e["segs"][0] and st_.get("init") is not None:
+                            return is_dot_test(st_["init"], depth + 1)
+                    return False
+                pat = None
+                if e.get("k") == "mac" and e.get("name") == "matches":
+                    pat = e.get("pat")
+                elif e.get("k") == "match" and len(e["arms"]) == 2 and e["arms"][0]["body"].get("v") is True and e["arms"][1]["pat"].get("k") == "p_wild" and e["arms"][1]["body"].get("v") is False:
+                    pat = e["arms"][0]["pat"]
+                if pat is None:
+                    return False
+                ps_ = sir.pat_str(pat).replace(" ", "")
+                return ps_ in ("Token::Delim('.')", "&Token::Delim('.')")
+            uniform = len(after) == 1 and is_dot_test(after[0]["r"])
+        if uniform is not None:
+            uses_ok = all(any(n.get("k") == "call" and sir.call_name(n) == "write_maybe_class_name" and sir.expr_str(n["args"][-1]) == "in_class" for n in sir.walk(a.body)) for a in d.arms if "Ident" in a.variants)
+            for a in d.arms:
+                label = "+".join(a.variants) + (("(%s)" % a.delim) if a.delim else "")
+                okk = uniform and (uses_ok or "Ident" not in a.variants)
+                obs.append(ob("%s.flag/%s/%s" % (prefix, role, label), okk, where, "after every token the flag is set to `the token was a .` by one assignment behind the dispatch: %s" % uniform))
+            continue
         for a in d.arms:
             label = "+".join(a.variants) + (("(%s)" % a.delim) if a.delim else "")
             sets = [n["r"].get("v") for n in sir.walk(a.body) if n.get("k") == "assign" and sir.expr_str(n["l"]) == "in_class" and n["r"].get("k") == "lit"]
